@@ -50,6 +50,9 @@ var prefixOps = []string{"-", "!", "?"}
 var prefixName = map[string]string{"-": "neg", "!": "not", "?": "some"}
 var typeNames = []string{"int", "float", "bool", "str"}
 
+// further right operands of `as` used by the random trees
+var richTypes = []string{"int", "float", "bool", "str", "int", "float", "[int]", "?int", "[?str]", "?[float]", "Obj"}
+
 var (
 	binLevel  = map[string]int{}
 	binClass  = map[string]string{}
@@ -97,8 +100,8 @@ func pre(op string, x *node) *node    { return &node{K: "pre", Op: op, Kids: []*
 func call(f *node, args ...*node) *node {
 	return &node{K: "call", Kids: append([]*node{f}, args...)}
 }
-func index(a, i *node) *node          { return &node{K: "index", Kids: []*node{a, i}} }
-func member(a *node, m string) *node  { return &node{K: "member", Op: m, Kids: []*node{a}} }
+func index(a, i *node) *node         { return &node{K: "index", Kids: []*node{a, i}} }
+func member(a *node, m string) *node { return &node{K: "member", Op: m, Kids: []*node{a}} }
 func assign(op string, l, r *node) *node {
 	return &node{K: "assign", Op: op, Kids: []*node{l, r}}
 }
@@ -390,12 +393,7 @@ func (p *refParser) binary(min int) *node {
 		}
 		p.pos++
 		if op == "as" {
-			t := p.cur()
-			if t.kind != "id" {
-				p.fail("expected type name after as")
-			}
-			p.pos++
-			lhs = cast(lhs, t.text)
+			lhs = cast(lhs, p.typ())
 			continue
 		}
 		var rhs *node
@@ -406,6 +404,26 @@ func (p *refParser) binary(min int) *node {
 		}
 		lhs = bin(op, lhs, rhs)
 	}
+}
+
+// typ: the right operand of `as`: a name, a list type [T] or an option type ?T.
+func (p *refParser) typ() string {
+	t := p.cur()
+	switch {
+	case t.kind == "id":
+		p.pos++
+		return t.text
+	case p.isOp("["):
+		p.pos++
+		inner := p.typ()
+		p.expectOp("]")
+		return "[" + inner + "]"
+	case p.isOp("?"):
+		p.pos++
+		return "?" + p.typ()
+	}
+	p.fail("expected type after as, found %q", t.text)
+	return ""
 }
 
 // unary: prefix operators bind tighter than every binary operator, looser than postfix.
